@@ -210,9 +210,9 @@ theorem joinDone_sinv {s : St} (h : SInv s) (hp : Live s) (cfg : Cfg) (r : JoinR
     cases r with
     | err e => exact reqErr_sinv h hp cfg e
     | ok m g leader n =>
-      simp only []
-      have w := winv_member h.toWInv hn m (some g)
-      have hp1 : Live { s with member := m, gen := some g } := hp
+      simp only [abandonHb_eq, andThen_fst]
+      have w := winv_hbInFlight (winv_member h.toWInv hn m (some g)) false (fun x => by cases x)
+      have hp1 : Live { s with member := m, gen := some g, hbInFlight := false } := hp
       split
       · exact sinv_mk (winv_upd w hp1 false .idle s.prep s.coordBroker s.now) hp (by simp) (by simp)
           h.stable_hb (by simp [midJoin]) h.hb_has
